@@ -135,7 +135,12 @@ def replay_counterexample(prop, harness, info, tier):
     # the unit test is printed between ``` fences; it is appended to the harness module by run_playback
     src = open(log).read()
     # Kani prints one test per failed check AND one per satisfied cover: only the former are counterexamples
-    tests = re.findall(r"/// Check for `(\w+)`:[^\n]*\n\s*\n?(#\[test\]\s*fn kani_concrete_playback_" + re.escape(harness) + r"\w*\s*\(\)\s*\{.*?\n\}\n)", src, re.S)
+    tests = []
+    for chunk in src.split("/// Check for `")[1:]:  # the description may span several lines
+        kind = chunk.split("`", 1)[0]
+        mt = re.search(r"(#\[test\]\s*fn kani_concrete_playback_" + re.escape(harness) + r"\w*\s*\(\)\s*\{.*?\n\}\n)", chunk, re.S)
+        if mt:
+            tests.append((kind, mt.group(1)))
     cex = [t for kind, t in tests if kind != "cover"]
     if not tests:  # older output without the header
         cex = re.findall(r"(#\[test\]\s*fn kani_concrete_playback_" + re.escape(harness) + r"\w*\s*\(\)\s*\{.*?\n\}\n)", src, re.S)[:1]
